@@ -128,6 +128,9 @@ func solveAll(obls []*Obligation, cfg SolveCfg) {
 }
 
 func solveOne(o *Obligation, cfg SolveCfg, w int) {
+	if o.Class == "unit" {
+		return // decided by the generator itself
+	}
 	h := queryHash(o.Query)
 	if cfg.CacheDir != "" {
 		if data, err := os.ReadFile(filepath.Join(cfg.CacheDir, h)); err == nil {
